@@ -70,7 +70,7 @@ def chatty_history(rng, n: int) -> List[Any]:
         elif c < 19:
             ops.append(K.rand_invalid(rng, ts))
         else:
-            ops.append(["purge", ts])
+            ops.append([rng.choice(["purge", "purge0"]), ts])
     return ops
 
 
@@ -83,6 +83,9 @@ def recipes(ctx: Ctx):
     depth = 3 if ctx.thorough else 2
     for ops in K.exhaustive_histories(depth):
         out.append((f"e{i}", {"ops": ops}))
+        i += 1
+    for nd in ([70, 130] if not ctx.thorough else [70, 130, 200, 300, 90, 150, 65, 100]):
+        out.append((f"m{i}", {"ops": K.many_devices_history(ctx.rng, nd)}))
         i += 1
     n_random = 14000 if ctx.thorough else 1200
     for _ in range(n_random):
